@@ -9,6 +9,9 @@
      inf{op,l,r} asg{def,l,r} idx{l,i} dot{l,n} call{f,a} bi{n,a}
      fn{name,ps,variadic,lambda,body} if{c,t,he,e} for{c,body} ret{e} brk cnt
      cmt{text,sp,sn} none
+     dotbad{l,i}   a dot whose right side is not one identifier / string token: a.(b+c), a.(f(1)), a.(1)
+                   (the parser accepts it - the right side of `.` is any expression binding tighter than `.`,
+                   so a parenthesised one - and only the evaluator refuses it)
 
    plus two generator-only leaves that stand for a *source spelling*:
      raw{text}   a numeric literal written exactly as `text` (.5 1. 1e3 0x10 0b1 1_000 ...)
@@ -58,6 +61,10 @@ Inf(op, l, r) == [k |-> "inf", op |-> op, l |-> l, r |-> r]
 Asg(def, l, r) == [k |-> "asg", def |-> def, l |-> l, r |-> r]
 Idx(l, i)   == [k |-> "idx", l |-> l, i |-> i]
 Dot(l, n)   == [k |-> "dot", l |-> l, n |-> n]
+DotBad(l, i) == [k |-> "dotbad", l |-> l, i |-> i]
+\* the dot with c on its right side: one identifier token is the ordinary dot; a string token is one too (same tree as
+\* the identifier spelling: generated as such); everything else is the general form
+DotI(l, c)  == CASE c.k = "id" -> Dot(l, c.n) [] c.k = "strb" -> Dot(l, "key") [] OTHER -> DotBad(l, c)
 Call(f, a)  == [k |-> "call", f |-> f, a |-> a]
 Bi(n, a)    == [k |-> "bi", n |-> n, a |-> a]
 Arr(e)      == [k |-> "arr", e |-> e]
@@ -91,6 +98,7 @@ WF(t) ==
     [] t.k = "asg"  -> t.def \in BOOLEAN /\ WF(t.l) /\ WF(t.r)
     [] t.k = "idx"  -> WF(t.l) /\ WF(t.i)
     [] t.k = "dot"  -> WF(t.l) /\ IsIdent(t.n)
+    [] t.k = "dotbad" -> WF(t.l) /\ WF(t.i) /\ t.i.k \notin {"id", "str", "strb", "none", "cmt"}
     [] t.k = "call" -> WF(t.f) /\ WFSeq(t.a)
     [] t.k = "bi"   -> t.n \in Builtins /\ WFSeq(t.a)
     [] t.k = "arr"  -> WFSeq(t.e)
@@ -119,12 +127,16 @@ ParenNeeded(ctx, t) == NodePrec(t) <= ctx
 
 \* ------------------------------------------------------------------ bounded generators
 A == Id("a")   B == Id("b")   C3 == Id("c")   Z == Id("z")   One == IntL("1")   Two == IntL("2")
+\* the one integer literal token that starts with a sign character: the parser folds `-` INT into ONE int token
+\* when the value is -2^63 (9223372036854775808 alone is not an integer); also spelled in hex
+MinInt == IntL("-9223372036854775808")
+MinIntHex == Raw("-0x8000000000000000")
 
 \* ---- one-hole operand contexts (the "parent" of an operator pair)
 InfixAll == InfixOps \o <<"=", ":=">>
 MkInf(op, l, r) == IF op = "=" THEN Asg(FALSE, l, r) ELSE IF op = ":=" THEN Asg(TRUE, l, r) ELSE Inf(op, l, r)
 
-OtherCtxNames == <<"idxL", "idxI", "dotL", "callF", "callA", "callA2", "sliceL", "sliceLo", "sliceHi", "sliceOpen",
+OtherCtxNames == <<"idxL", "idxI", "dotL", "dotI", "callF", "callA", "callA2", "sliceL", "sliceLo", "sliceHi", "sliceOpen",
                    "lamBody", "lamBlock", "funcBody", "mapK", "mapV", "mapK2", "arrE", "biA", "ret", "ifC", "ifT", "forC", "forAsg", "stmt">>
 Contexts ==
      [i \in 1..Len(InfixAll)  |-> [ctx |-> "infL", op |-> InfixAll[i]]]
@@ -139,6 +151,8 @@ Plug(p, c) ==
     [] p.ctx = "idxL"    -> Idx(c, One)
     [] p.ctx = "idxI"    -> Idx(Z, c)
     [] p.ctx = "dotL"    -> Dot(c, "key")
+    [] p.ctx = "dotI"    -> DotI(Z, c)
+    [] p.ctx = "infRpost" -> MkInf(p.op, Post(IF p.op = "+" THEN "++" ELSE "--", "i"), c)   \* i-- - c, i++ + c
     [] p.ctx = "callF"   -> Call(c, <<One>>)
     [] p.ctx = "callA"   -> Call(Id("f"), <<c>>)
     [] p.ctx = "callA2"  -> Call(Id("f"), <<One, c, Two>>)
@@ -172,13 +186,15 @@ Children ==
         Fn("", <<"x">>, FALSE, FALSE, <<Id("x")>>), Fn("g", <<"x">>, FALSE, FALSE, <<Id("x")>>),
         A, One, IntL("0"), FloatL("3ff8000000000000"), Raw(".5"), Raw("1."), StrB(<<97>>), StrB(<<>>), BoolL(TRUE),
         Arr(<<One, Two>>), Arr(<<>>), Arr(<<Inf(":", One, None)>>), MapL(<< <<One, Two>> >>), MapL(<<>>),
-        IfElse(A, <<One>>, <<Two>>), If(A, <<One>>), For(A, <<One>>), Bi("len", <<A>>), Id("nil") >>
+        IfElse(A, <<One>>, <<Two>>), If(A, <<One>>), For(A, <<One>>), Bi("len", <<A>>), Id("nil"),
+        DotBad(A, Inf("+", A, B)), DotBad(A, Call(Id("f"), <<A>>)), MinInt >>
 
 \* ---- the sign family at depth 3: - + ++ -- in every nesting (adjacency of sign characters)
 SignCtx == << [ctx |-> "infL", op |-> "-"], [ctx |-> "infR", op |-> "-"], [ctx |-> "infL", op |-> "+"], [ctx |-> "infR", op |-> "+"],
               [ctx |-> "pre", op |-> "-"], [ctx |-> "pre", op |-> "+"], [ctx |-> "pre", op |-> "++"], [ctx |-> "pre", op |-> "--"],
-              [ctx |-> "pre", op |-> "!"], [ctx |-> "infR", op |-> "*"], [ctx |-> "infL", op |-> "*"], [ctx |-> "infR", op |-> "="] >>
-SignLeaf == << A, Post("++", "i"), Post("--", "i"), One, Pre("-", A), Pre("--", A), Pre("++", A), Pre("+", One) >>
+              [ctx |-> "pre", op |-> "!"], [ctx |-> "infR", op |-> "*"], [ctx |-> "infL", op |-> "*"], [ctx |-> "infR", op |-> "="],
+              [ctx |-> "infRpost", op |-> "-"], [ctx |-> "infRpost", op |-> "+"], [ctx |-> "callA2", op |-> ""], [ctx |-> "arrE", op |-> ""] >>
+SignLeaf == << A, Post("++", "i"), Post("--", "i"), One, Pre("-", A), Pre("--", A), Pre("++", A), Pre("+", One), MinInt, MinIntHex >>
 
 \* ---- representative operators for nesting depth 3 (one per binding level)
 RepCtx ==
@@ -190,6 +206,20 @@ RepCtx ==
 RepLeaf == << Inf("-", A, B), Inf("*", A, B), Inf("==", A, B), Inf("&&", A, B), Inf(":", A, B), Asg(FALSE, A, B),
               Pre("-", A), Pre("!", A), Post("++", "i"), Lam(<<"x">>, <<Id("x")>>), Idx(A, One), Call(Id("f"), <<A>>), A, One,
               IfElse(A, <<One>>, <<Two>>), MapL(<< <<One, Two>> >>) >>
+
+\* ---- left-spine chains under a parenthesised right operand, for every precedence class.
+\* a p (((b o1 c) o2 d) o3 g): whether the parentheses may go depends on EVERY operator of the class on the right
+\* operand's left spine (a ^ (((b - c) ^ d) ^ g) without them is (((a ^ b) - c) ^ d) ^ g), not on the first one or two.
+PrecClasses == << <<"||">>, <<"&&", ":">>, <<"==", "!=">>, <<"<", ">", "<=", ">=">>, <<"+", "-", "|", "^">>,
+                  <<"*", "%", "&", "<<", ">>">>, <<"/">> >>
+ASSUME \A k \in 1..Len(PrecClasses) : \A i, j \in 1..Len(PrecClasses[k]) : Prec[PrecClasses[k][i]] = Prec[PrecClasses[k][j]]
+ASSUME \A i \in 1..Len(InfixOps) : \E k \in 1..Len(PrecClasses) : \E j \in 1..Len(PrecClasses[k]) : PrecClasses[k][j] = InfixOps[i]
+Spine2(o1, o2) == Inf(o2, Inf(o1, B, C3), Id("d"))
+Spine3(o1, o2, o3) == Inf(o3, Spine2(o1, o2), Id("g"))
+Spine4(o1, o2, o3, o4) == Inf(o4, Spine3(o1, o2, o3), Id("j"))
+\* a chain of d operators, all p except the deepest one: a p (((((b o1 c) p d) p d) p d) p d)
+RECURSIVE SpineDeep(_, _, _)
+SpineDeep(o1, p, d) == IF d = 1 THEN Inf(o1, B, C3) ELSE Inf(p, SpineDeep(o1, p, d - 1), Id("d"))
 
 \* ---- statement kinds (every ordered pair, at top level and inside each kind of block)
 Stmts == <<
@@ -251,6 +281,22 @@ CmtNeighbours == << A, Asg(FALSE, A, One), Call(Id("f"), <<A>>), If(A, <<One>>),
                     Arr(<<One>>), Pre("-", A), Post("++", "i"), Ret(A), StrB(<<115>>) >>
 CmtBlockCtx == <<"top", "if", "else", "for", "func", "lambda">>
 
+\* ---- sibling blocks: ONE statement with two blocks; how the first block ends (comment kinds and flags) must not
+\* decide how the second one is laid out (C03: the printer's "previous statement" must not survive a block)
+SibB1 == << <<A>> >> \o [c \in 1..Len(Cmts) |-> <<A, Cmts[c]>>] \o [c \in 1..Len(Cmts) |-> <<Cmts[c]>>]
+SibB2 == << <<B>>, <<>> >> \o [c \in 1..Len(Cmts) |-> <<Cmts[c], B>>]
+SibFormNames == <<"ifelse", "elseif", "elseif2", "elsefor", "callfn", "arrlam", "mapfn", "applied", "forif">>
+SibForm(f, b1, b2) ==
+  CASE f = "ifelse"  -> IfElse(Z, b1, b2)
+    [] f = "elseif"  -> IfElse(Z, b1, <<IfElse(Id("c"), b2, <<One>>)>>)
+    [] f = "elseif2" -> IfElse(Z, <<One>>, <<IfElse(Id("c"), b1, b2)>>)
+    [] f = "elsefor" -> IfElse(Z, b1, <<For(Id("c"), b2), Two>>)
+    [] f = "callfn"  -> Call(Id("f"), <<Fn("", <<>>, FALSE, FALSE, b1), Fn("", <<>>, FALSE, FALSE, b2)>>)
+    [] f = "arrlam"  -> Arr(<<Lam(<<"x">>, b1), Lam(<<"y">>, b2)>>)
+    [] f = "mapfn"   -> MapL(<< <<One, Lam(<<"x">>, b1)>>, <<Two, Lam(<<"y">>, b2)>> >>)
+    [] f = "applied" -> Asg(FALSE, Id("g"), Call(Lam(<<"x">>, b1), <<Lam(<<"y">>, b2)>>))
+    [] f = "forif"   -> For(Z, <<IfElse(Id("c"), b1, b2)>>)
+
 \* ---- strings: every byte, every 2-byte combination of the escape-relevant bytes
 EscBytes == <<34, 92, 10, 9, 13, 7, 8, 11, 12, 127, 128, 255, 0, 39, 96, 97, 110, 120, 117, 85>>
 Utf8 == << <<195, 169>>, <<226, 130, 172>>, <<240, 159, 152, 128>>, <<194, 128>>, <<226, 128, 168>>, <<239, 187, 191>>,
@@ -266,7 +312,8 @@ StrIn(name, s) ==
 \* ---- numeric literal spellings
 RawLits == << ".5", "1.", "1e3", "1E3", "1e+3", "1e-3", "1.5e3", "0x10", "0xff", "0xFF", "0b1", "0b101", "1_000", "1_0.5_0", "0x_f",
               "007", "0", "0.0", "9223372036854775807", "9223372036854775808", "18446744073709551616", "123456789012345678901234567890",
-              "1e308", "5e-324", "0.1", "100.0", "1.0", ".0", "0." >>
+              "1e308", "5e-324", "0.1", "100.0", "1.0", ".0", "0.", "-9223372036854775808", "-0x8000000000000000", "-9_223_372_036_854_775_808",
+              "-0b1000000000000000000000000000000000000000000000000000000000000000", "- 9223372036854775808" >>
 LitCtx == << [ctx |-> "stmt", op |-> ""], [ctx |-> "pre", op |-> "-"], [ctx |-> "infL", op |-> "+"], [ctx |-> "infR", op |-> "-"],
              [ctx |-> "idxI", op |-> ""], [ctx |-> "idxL", op |-> ""], [ctx |-> "dotL", op |-> ""], [ctx |-> "callA", op |-> ""],
              [ctx |-> "infR", op |-> "="], [ctx |-> "sliceLo", op |-> ""], [ctx |-> "mapK", op |-> ""], [ctx |-> "infL", op |-> ":"] >>
@@ -331,6 +378,19 @@ GenStrings ==
        Emit("string", <<"pair", EscBytes[x], EscBytes[y]>>, <<Asg(FALSE, Id("x"), StrB(<<EscBytes[x], EscBytes[y]>>))>>)
   \/ \E x \in 0..255 : Emit("string", <<"mid", x>>, <<StrB(<<97, x, 98>>)>>)
   \/ \E u \in 1..Len(Utf8), s \in 1..Len(StrCtxNames) : Emit("string", <<"utf8", u, StrCtxNames[s]>>, <<StrIn(StrCtxNames[s], StrB(Utf8[u]))>>)
+
+GenSpines == \E k \in 1..Len(PrecClasses) : LET cls == PrecClasses[k] IN
+  \/ \E p \in 1..Len(cls), o1 \in 1..Len(cls), o2 \in 1..Len(cls) :
+       Emit("spine", <<cls[p], cls[o1], cls[o2]>>, <<Inf(cls[p], A, Spine2(cls[o1], cls[o2]))>>)
+  \/ \E p \in 1..Len(cls), o1 \in 1..Len(cls), o2 \in 1..Len(cls), o3 \in 1..Len(cls) :
+       Emit("spine", <<cls[p], cls[o1], cls[o2], cls[o3]>>, <<Inf(cls[p], A, Spine3(cls[o1], cls[o2], cls[o3]))>>)
+  \/ \E p \in 1..Len(cls), o1 \in 1..Len(cls), d \in 4..6 :
+       Emit("spine", <<"deep", cls[p], cls[o1], d>>, <<Inf(cls[p], A, SpineDeep(cls[o1], cls[p], d))>>)
+  \/ \E p \in 1..Len(cls), o1 \in 1..Len(cls), o2 \in 1..Len(cls), o3 \in 1..Len(cls), o4 \in 1..Len(cls) :
+       Thorough /\ Emit("spine", <<cls[p], cls[o1], cls[o2], cls[o3], cls[o4]>>, <<Inf(cls[p], A, Spine4(cls[o1], cls[o2], cls[o3], cls[o4]))>>)
+
+GenSiblings == \E f \in 1..Len(SibFormNames), i \in 1..Len(SibB1), j \in 1..Len(SibB2) :
+  Emit("sibling", <<SibFormNames[f], i, j>>, <<SibForm(SibFormNames[f], SibB1[i], SibB2[j])>>)
 
 GenLiterals == \E r \in 1..Len(RawLits), p \in 1..Len(LitCtx) :
   Emit("literal", <<RawLits[r], LitCtx[p].ctx, LitCtx[p].op>>, <<Plug(LitCtx[p], Raw(RawLits[r]))>>)
@@ -407,4 +467,6 @@ Next == /\ phase = 0
            \/ "literal" \in Families /\ GenLiterals
            \/ "func" \in Families /\ GenFuncs
            \/ "fnbody" \in Families /\ GenFnBodies
+           \/ "spine" \in Families /\ GenSpines
+           \/ "sibling" \in Families /\ GenSiblings
 =============================================================================
